@@ -46,3 +46,16 @@ End REN.
 (* ---------------------------------------------------------------- scaling *)
 Theorem schwartz_set_scale (k : Z) v : 0 < k -> schwartz_set (scalez k v) = schwartz_set v.
 Proof. intros Hk. unfold schwartz_set. rewrite (complete_scale k), !(pairwise_wins_scale k Hk). reflexivity. Qed.
+
+(* ---------------------------------------------------------------- symmetric candidates *)
+Theorem schwartz_symmetric (t : C -> C) : (forall c, t (t c) = c) -> forall v,
+  NoDup (map fst v) -> Permutation v (renp t v) -> (forall p k, In (p, k) v -> 0 <= k) -> forall a,
+  In a (schwartz_set v) <-> In (t a) (schwartz_set v).
+Proof.
+  intros t_inv v Hn Hp Hnn a.
+  assert (t_inj : forall x y, t x = t y -> x = y) by (intros x y E; rewrite <- (t_inv x), <- (t_inv y), E; reflexivity).
+  pose proof (schwartz_perm v (renp t v) Hn Hnn Hp) as P. rewrite (schwartz_set_ren t t_inj) in P.
+  split; intros H.
+  - apply (Permutation_in _ P) in H. apply in_map_iff in H. destruct H as (x & <- & Hx). rewrite t_inv. exact Hx.
+  - apply (Permutation_in _ (Permutation_sym P)). apply in_map_iff. exists (t a). split; [apply t_inv|exact H].
+Qed.
